@@ -673,6 +673,29 @@ func init() {
 			if !ok || f.Conc == nil {
 				return ex.freshAtom("fmtstr")
 			}
+			// "%064x" of a non-negative integer below 16^68 is exactly a hex numeral text (see ndHexVal): its order,
+			// length and numeric value stay available
+			if *f.Conc == "%064x" {
+				if args := sliceElems(a[1]); len(args) == 1 {
+					if iv, ok := args[0].(VIface); ok {
+						var t *Term
+						switch v := iv.V.(type) {
+						case VInt:
+							t = &v.T
+						case VPtr:
+							if v.O != nil {
+								if in, ok := v.load().(VInt); ok {
+									t = &in.T
+								}
+							}
+						}
+						if t != nil && !t.Const && ex.decide(And(Ge(*t, IntC(0)), Lt(*t, IntB(pow16(68))))) {
+							id := ex.nameT(Mul(*t, IntC(2)))
+							return VStr{Atom: &id, HexNum: true}
+						}
+					}
+				}
+			}
 			var flat []Term
 			for _, arg := range sliceElems(a[1]) {
 				// a byte array and a byte slice with the same contents print alike (%x, %s, %v of [N]byte differ only
